@@ -23,7 +23,10 @@ const CL_ID_COORD: &str = "identity-set-coordinate";
 const CL_ID_FAR: &str = "identity-insert-far";
 const CL_ID_OTHER: &str = "identity-insert-other-sheet";
 const CL_TRANSLATE: &str = "translate";
-const CLAUSES: [&str; 4] = [CL_ID_COORD, CL_ID_FAR, CL_ID_OTHER, CL_TRANSLATE];
+/// rows/columns removed or inserted on ANOTHER sheet while the formula sits on the sheet that its own qualified
+/// references name (PLAIN): nothing in it concerns the edited sheet
+const CL_ID_OTHER_OPS: &str = "identity-edits-on-other-sheet";
+const CLAUSES: [&str; 5] = [CL_ID_COORD, CL_ID_FAR, CL_ID_OTHER, CL_TRANSLATE, CL_ID_OTHER_OPS];
 
 fn guarded<T, F: FnOnce() -> T>(f: F) -> Result<T, String> {
     std::panic::catch_unwind(std::panic::AssertUnwindSafe(f)).map_err(|e| panic_msg(&e))
@@ -64,6 +67,22 @@ fn lib_insert_other(text: &str) -> Result<String, String> {
         book.get_sheet_by_name_mut("Sheet1").unwrap().get_cell_mut(CELL).set_formula(text);
         book.insert_new_row("Other", &1, &1);
         find_formula(book.get_sheet_by_name("Sheet1").unwrap()).unwrap_or_else(|| "<formula cell vanished>".to_string())
+    })
+}
+
+fn lib_other_sheet_ops(text: &str) -> Result<String, String> {
+    let text = text.to_string();
+    guarded(move || {
+        let mut book = umya_spreadsheet::new_file();
+        let _ = book.new_sheet(PLAIN);
+        let _ = book.new_sheet("Other");
+        // the formula lives on PLAIN (Sheet2): a reference qualified with Sheet2 names its OWN sheet
+        book.get_sheet_by_name_mut(PLAIN).unwrap().get_cell_mut(CELL).set_formula(text);
+        book.remove_row("Other", &1, &1);
+        book.remove_column_by_index("Other", &1, &2);
+        book.insert_new_column_by_index("Other", &1, &1);
+        book.insert_new_row("Other", &2, &3);
+        find_formula(book.get_sheet_by_name(PLAIN).unwrap()).unwrap_or_else(|| "<formula cell vanished>".to_string())
     })
 }
 
@@ -136,6 +155,7 @@ fn check_one(f: &F, clause: &'static str, mv: (i64, i64), sink: &mut Sink, tally
         match clause {
             CL_ID_FAR => lib_insert_far(text),
             CL_ID_OTHER => lib_insert_other(text),
+            CL_ID_OTHER_OPS => lib_other_sheet_ops(text),
             _ => lib_set_coordinate(text, mv.0, mv.1),
         }
     };
@@ -184,6 +204,9 @@ fn check_formula(f: &F, only: Option<&'static str>, sink: &mut Sink) {
     }
     if want(CL_ID_OTHER) {
         check_one(f, CL_ID_OTHER, (0, 0), sink, &mut tally, true);
+    }
+    if want(CL_ID_OTHER_OPS) {
+        check_one(f, CL_ID_OTHER_OPS, (0, 0), sink, &mut tally, false);
     }
     // An external reference ([1]Sheet1!B2) is a relative reference too: translating it is legitimate, but the
     // reference model keeps bracketed leaves opaque, so the translate clause is not evaluated for them
@@ -265,18 +288,18 @@ impl Bracket {
 }
 impl Space for Bracket {
     fn len(&self) -> u64 {
-        self.forms.len() as u64 * 4
+        self.forms.len() as u64 * CLAUSES.len() as u64
     }
     fn describe(&self, i: u64) -> Value {
-        json!({"kind": "bracket-formula", "formula": render(&self.forms[(i / 4) as usize]).text, "clause": CLAUSES[(i % 4) as usize]})
+        json!({"kind": "bracket-formula", "formula": render(&self.forms[(i / CLAUSES.len() as u64) as usize]).text, "clause": CLAUSES[(i % CLAUSES.len() as u64) as usize]})
     }
     fn tags(&self, i: u64) -> Vec<String> {
         // the bracket-bearing leaf is the reason the case is in this space
-        let f = &self.forms[(i / 4) as usize];
+        let f = &self.forms[(i / CLAUSES.len() as u64) as usize];
         formula_tags(f).into_iter().filter(|t| *t == "structured-ref" || *t == "external-ref").map(|s| s.to_string()).collect()
     }
     fn run(&self, i: u64, sink: &mut Sink) {
-        check_formula(&self.forms[(i / 4) as usize], Some(CLAUSES[(i % 4) as usize]), sink);
+        check_formula(&self.forms[(i / CLAUSES.len() as u64) as usize], Some(CLAUSES[(i % CLAUSES.len() as u64) as usize]), sink);
     }
 }
 
@@ -433,7 +456,7 @@ fn run(ctx: &Ctx) -> i32 {
             spaces,
             cfg: PoolCfg { chunk: if deep { 8 } else { 1 }, case_timeout: std::time::Duration::from_secs(3), keep_per_class: 2, ..Default::default() },
             level: "exploration",
-            rule: "every formula of the harness grammar (AST rendered by the harness) in the sections listed under bounds, index -> formula deterministic, simplest first; each formula is put on cell C3 and sent through (i) set_coordinate(C3) [identity], (ii) Worksheet::insert_new_row(1000,1) on its own sheet [identity], (iii) Spreadsheet::insert_new_row(\"Other\",1,1) on another sheet [identity], (iv) set_coordinate(C3+(dc,dr)) for every move of the move alphabet [translation, expected = AST translation]; (loaded-child) the formulas of the quick main space as masters of a shared-formula group at C2 whose child C3 is read back from a saved file (the child holds only expanded text) and sent through set_coordinate for the identity and the first 6 moves; result and expectation are compared token by token through the harness's own lexer, only insignificant blank runs dropped. A hang is reported by the pool watchdog (clause terminates). distinct_nontrivial = distinct result texts of the identity paths and of the first four moves. counters: clean|<clause>|<tag> = formulas carrying the tag for which every evaluation of the clause was clean; failing|... likewise".into(),
+            rule: "every formula of the harness grammar (AST rendered by the harness) in the sections listed under bounds, index -> formula deterministic, simplest first; each formula is put on cell C3 and sent through (i) set_coordinate(C3) [identity], (ii) Worksheet::insert_new_row(1000,1) on its own sheet [identity], (iii) Spreadsheet::insert_new_row(\"Other\",1,1) on another sheet [identity], (iii') placed on the sheet its own qualified references name, under remove_row / remove_column / insert_new_column / insert_new_row on another sheet [identity], (iv) set_coordinate(C3+(dc,dr)) for every move of the move alphabet [translation, expected = AST translation]; (loaded-child) the formulas of the quick main space as masters of a shared-formula group at C2 whose child C3 is read back from a saved file (the child holds only expanded text) and sent through set_coordinate for the identity and the first 6 moves; result and expectation are compared token by token through the harness's own lexer, only insignificant blank runs dropped. A hang is reported by the pool watchdog (clause terminates). distinct_nontrivial = distinct result texts of the identity paths and of the first four moves. counters: clean|<clause>|<tag> = formulas carrying the tag for which every evaluation of the clause was clean; failing|... likewise".into(),
             alphabets: json!({
                 "leaves_full": full_leaves(CO, PLAIN).iter().map(render_leaf).collect::<Vec<_>>(),
                 "leaves_reduced": reduced_leaves(CO, PLAIN).iter().map(render_leaf).collect::<Vec<_>>(),
